@@ -657,3 +657,57 @@ func TestProp_PairSets(t *testing.T) {
 		}
 	})
 }
+
+// TestProp_DecryptInPlace: the library's key sources are messages themselves, and a
+// caller may decrypt INTO the very object it derives the key from (a node refreshing
+// its credentials, a server its record). Whatever pair the sender used - current or
+// the recorded previous one - the object afterwards is exactly the message.
+func TestProp_DecryptInPlace(t *testing.T) {
+	rec := vkit.Rec(prop)
+	vkit.SetRapidChecks(vkit.N(300))
+	rapid.Check(t, func(t *rapid.T) {
+		withPrev := rapid.Bool().Draw(t, "withPrev")
+		s := newSetup(withPrev)
+		if withPrev && rapid.Bool().Draw(t, "previousKeySharesKeyId") {
+			s.sameKeyID()
+		}
+		nSide, sSide := s.sides(t)
+		receiverIsServer := rapid.Bool().Draw(t, "receiverIsServer")
+		useOld := withPrev && rapid.Bool().Draw(t, "senderUsesPreviousPair")
+		var sender nodeenrollment.X25519KeyProducer
+		var receiver nodeenrollment.X25519KeyProducer
+		var msg, target proto.Message
+		marker := vkit.UniqueStruct(fmt.Sprint("in-place-", rapid.IntRange(0, 1<<30).Draw(t, "marker")))
+		if receiverIsServer {
+			sender = nSide
+			if useOld {
+				sender = nodeSide(s.oldCert, s.oldNode, s.oldSrv)
+			}
+			receiver, target = sSide, sSide
+			msg = &types.NodeInformation{Id: "fresh-record", NodeId: "n", State: marker, RegistrationNonce: []byte("nonce")}
+		} else {
+			sender = sSide
+			if useOld {
+				sender = serverSide(s.oldCert, s.oldNode, s.oldSrv)
+			}
+			receiver, target = nSide, nSide
+			msg = &types.NodeCredentials{Id: "fresh-credentials", State: marker, RegistrationNonce: []byte("nonce")}
+		}
+		ct, err := nodeenrollment.EncryptMessage(ctx, msg, sender)
+		if err != nil {
+			t.Fatalf("encrypt: %v", err)
+		}
+		desc := func() any {
+			return map[string]any{"receiver_is_server": receiverIsServer, "receiver_has_previous": withPrev, "sender_uses_previous_pair": useOld}
+		}
+		rec.Case("decrypt-in-place/"+map[bool]string{true: "previous-key", false: "current-key"}[useOld], fmt.Sprint(receiverIsServer, withPrev, useOld), true, desc)
+		var derr error
+		if pv, stack := vkit.Guard(func() { derr = nodeenrollment.DecryptMessage(ctx, ct, receiver, target) }); pv != nil {
+			vkit.Violate(t, prop, "C11/panic/other", fmt.Sprintf("DecryptMessage panicked when decrypting in place: %v", pv), map[string]any{"case": desc(), "stack": stack})
+			return
+		}
+		if derr != nil || !proto.Equal(target, msg) {
+			vkit.Violate(t, prop, "C11/roundtrip/in-place/"+map[bool]string{true: "previous-key", false: "current-key"}[useOld], fmt.Sprintf("decrypting into the object that is also the key source did not yield the original message (err=%v)", derr), desc())
+		}
+	})
+}
